@@ -14,6 +14,7 @@ import (
 	"fmt"
 	"io"
 	"log"
+	"math/big"
 	"os"
 	"path/filepath"
 	"sort"
@@ -126,21 +127,21 @@ type c28Snap struct {
 }
 
 type c28Op struct {
-	Kind    string   `json:"kind"`
-	Peer    string   `json:"peer,omitempty"`
-	Ty      int64    `json:"type,omitempty"`
-	Payload string   `json:"payload,omitempty"`
-	Flag    bool     `json:"flag,omitempty"`
-	D       int64    `json:"d,omitempty"` // seconds (advance) or ns (direct cleanup timeout)
-	Keep    []string `json:"keep,omitempty"`
+	Kind    string                `json:"kind"`
+	Peer    string                `json:"peer,omitempty"`
+	Ty      int64                 `json:"type,omitempty"`
+	Payload string                `json:"payload,omitempty"`
+	Flag    bool                  `json:"flag,omitempty"`
+	D       int64                 `json:"d,omitempty"` // seconds (advance) or ns (direct cleanup timeout)
+	Keep    []string              `json:"keep,omitempty"`
 	Rec     *peersync.VerifC28Rec `json:"rec,omitempty"`
 	// filled at execution: virtual time of the op = VSec seconds + Idx milliseconds
-	VSec    int64                  `json:"vsec"`
-	Idx     int64                  `json:"idx"`
-	Parsed  *c28Snap               `json:"parsed,omitempty"`
-	Sent    []c28Sent              `json:"sent,omitempty"`
-	Result  int64                  `json:"result"`
-	Store   []peersync.VerifC28Rec `json:"store"`
+	VSec   int64                  `json:"vsec"`
+	Idx    int64                  `json:"idx"`
+	Parsed *c28Snap               `json:"parsed,omitempty"`
+	Sent   []c28Sent              `json:"sent,omitempty"`
+	Result int64                  `json:"result"`
+	Store  []peersync.VerifC28Rec `json:"store"`
 }
 
 const c28Sec = int64(time.Second)
@@ -240,62 +241,162 @@ func genC28Rec(r *Rng, local uint64) *peersync.VerifC28Rec {
 	return rec
 }
 
+func c28ValidPayload(v uint64, r *Rng) string {
+	m := map[string]interface{}{"version": v, "assets": []string{"btc", "lbtc"}, "peer_allowed": r.Bool(),
+		"btc_swap_in_premium_rate_ppm": r.Range(-3, 3), "lbtc_swap_out_premium_rate_ppm": r.Range(-3, 3)}
+	b, _ := json.Marshal(m)
+	return string(b)
+}
+
+func genC28RandomOp(r *Rng, local uint64, big *int) c28Op {
+	k := r.Intn(100)
+	// peers 0..2 are used most of the time so that histories revisit the same peer
+	p := c28Peers[r.Intn(3)]
+	if r.Chance(25) {
+		p = c28Peers[r.Intn(len(c28Peers))]
+	}
+	switch {
+	case k < 30:
+		ty := int64(messages.MESSAGETYPE_POLL)
+		if r.Bool() {
+			ty = int64(messages.MESSAGETYPE_REQUEST_POLL)
+		}
+		if r.Chance(7) {
+			ty = PickI(r, []int64{int64(messages.MESSAGETYPE_SWAPINREQUEST), 0, int64(messages.MESSAGETYPE_COOPCLOSE)})
+		}
+		return c28Op{Kind: "msg", Peer: p, Ty: ty, Payload: genC28Payload(r, local)}
+	case k < 46:
+		return c28Op{Kind: "poll", Flag: r.Chance(30)}
+	case k < 58:
+		return c28Op{Kind: "cleanup"}
+	case k < 62:
+		keep := []string{}
+		for _, q := range c28Peers {
+			if r.Chance(30) {
+				keep = append(keep, q)
+			}
+		}
+		return c28Op{Kind: "cleanup_direct", D: PickI(r, []int64{0, -c28Sec, 1, c28Sec, 10 * c28Sec, 1800 * c28Sec, 1801 * c28Sec, 3600 * c28Sec, -1 << 63, 1<<63 - 1}), Keep: keep}
+	case k < 72:
+		return c28Op{Kind: "connect", Peer: p, Flag: r.Chance(65)}
+	case k < 85:
+		d := PickI(r, []int64{1, 9, 10, 11, 60, 300, 589, 590, 599, 600, 601, 890, 899, 900, 901, 1799, 1800, 1801, 3600, 86400})
+		if r.Chance(4) && *big < 2 {
+			d = 200 * 365 * 86400
+			*big++
+		}
+		return c28Op{Kind: "advance", D: d}
+	case k < 88:
+		return c28Op{Kind: "suspicious", Peer: p, Flag: r.Chance(60)}
+	case k < 90:
+		return c28Op{Kind: "sendfail", Peer: p, Flag: r.Chance(60)}
+	case k < 91:
+		return c28Op{Kind: "listfail", Flag: r.Chance(60)}
+	case k < 93:
+		return c28Op{Kind: "reload"}
+	case k < 97:
+		id := p
+		if r.Chance(25) {
+			id = PickS(r, []string{"", strings.Repeat("k", 128), strings.Repeat("k", 129), "nobody"})
+		}
+		return c28Op{Kind: "compat", Peer: id}
+	case k < 99:
+		return c28Op{Kind: "putraw", Rec: genC28Rec(r, local)}
+	}
+	return c28Op{Kind: "remove", Peer: p}
+}
+
+// scenario skeletons aimed at the clauses of the property; random operations are interleaved
+func genC28Scenario(r *Rng, local uint64) []c28Op {
+	a, b := c28Peers[r.Intn(2)], c28Peers[2+r.Intn(2)]
+	poll := int64(messages.MESSAGETYPE_POLL)
+	req := int64(messages.MESSAGETYPE_REQUEST_POLL)
+	pick := func() int64 {
+		if r.Bool() {
+			return poll
+		}
+		return req
+	}
+	around := func(t int64) int64 { return t + r.Range(-1, 1) }
+	switch r.Intn(9) {
+	case 8: // ages beyond the int64 Duration range (time.Since saturates)
+		return []c28Op{
+			{Kind: "msg", Peer: a, Ty: pick(), Payload: c28ValidPayload(local, r)},
+			{Kind: "poll"},
+			{Kind: "connect", Peer: b, Flag: true},
+			{Kind: "poll"},
+			{Kind: "advance", D: 200 * 365 * 86400},
+			{Kind: "poll"},
+			{Kind: "connect", Peer: a, Flag: r.Bool()},
+			{Kind: "advance", D: 200 * 365 * 86400},
+			{Kind: "poll"},
+			{Kind: "cleanup"},
+		}
+	case 0, 4: // expiry: one peer connected, one not, sweep around the timeout
+		return []c28Op{
+			{Kind: "msg", Peer: a, Ty: pick(), Payload: c28ValidPayload(local, r)},
+			{Kind: "msg", Peer: b, Ty: pick(), Payload: c28ValidPayload(local, r)},
+			{Kind: "connect", Peer: a, Flag: true},
+			{Kind: "advance", D: around(1800)},
+			{Kind: "cleanup"},
+			{Kind: "connect", Peer: a, Flag: r.Chance(30)},
+			{Kind: "advance", D: PickI(r, []int64{1, 2, 600})},
+			{Kind: "cleanup"},
+			{Kind: "compat", Peer: a},
+		}
+	case 1, 5: // request interval for an unknown connected peer
+		return []c28Op{
+			{Kind: "connect", Peer: a, Flag: true},
+			{Kind: "poll", Flag: r.Chance(20)},
+			{Kind: "advance", D: around(PickI(r, []int64{300, 600, 600}))},
+			{Kind: "poll", Flag: r.Chance(15)},
+			{Kind: "advance", D: PickI(r, []int64{1, 298, 299, 300, 301, 600})},
+			{Kind: "poll"},
+			{Kind: "connect", Peer: a, Flag: false},
+			{Kind: "poll"},
+			{Kind: "connect", Peer: a, Flag: true},
+			{Kind: "poll"},
+		}
+	case 2, 6: // version ladder from one peer, with a restart
+		vs := []uint64{local, local - 1, local + 1, local, 0, local + 1}
+		ops := []c28Op{}
+		for i := 0; i < 3+r.Intn(3); i++ {
+			ops = append(ops, c28Op{Kind: "msg", Peer: a, Ty: pick(), Payload: c28ValidPayload(vs[r.Intn(len(vs))], r)})
+			if r.Chance(30) {
+				ops = append(ops, c28Op{Kind: "compat", Peer: a})
+			}
+		}
+		ops = append(ops, c28Op{Kind: "reload"}, c28Op{Kind: "compat", Peer: a})
+		return ops
+	}
+	// cadence of polls to a known peer: plain poll, then request poll once stale
+	return []c28Op{
+		{Kind: "msg", Peer: a, Ty: pick(), Payload: c28ValidPayload(local, r)},
+		{Kind: "poll"},
+		{Kind: "advance", D: around(10)},
+		{Kind: "poll"},
+		{Kind: "advance", D: around(890)},
+		{Kind: "poll"},
+		{Kind: "advance", D: around(900)},
+		{Kind: "poll", Flag: r.Chance(20)},
+		{Kind: "cleanup"},
+	}
+}
+
 func genC28Ops(r *Rng, local uint64) []c28Op {
-	n := int(r.Range(4, 14))
 	ops := []c28Op{}
 	big := 0
-	for len(ops) < n {
-		k := r.Intn(100)
-		p := c28Peers[r.Intn(len(c28Peers))]
-		switch {
-		case k < 30:
-			ty := int64(messages.MESSAGETYPE_POLL)
-			if r.Bool() {
-				ty = int64(messages.MESSAGETYPE_REQUEST_POLL)
+	if r.Chance(55) {
+		for _, o := range genC28Scenario(r, local) {
+			for r.Chance(25) {
+				ops = append(ops, genC28RandomOp(r, local, &big))
 			}
-			if r.Chance(7) {
-				ty = PickI(r, []int64{int64(messages.MESSAGETYPE_SWAPINREQUEST), 0, int64(messages.MESSAGETYPE_COOPCLOSE)})
-			}
-			ops = append(ops, c28Op{Kind: "msg", Peer: p, Ty: ty, Payload: genC28Payload(r, local)})
-		case k < 46:
-			ops = append(ops, c28Op{Kind: "poll", Flag: r.Chance(30)})
-		case k < 58:
-			ops = append(ops, c28Op{Kind: "cleanup"})
-		case k < 62:
-			keep := []string{}
-			for _, q := range c28Peers {
-				if r.Chance(30) {
-					keep = append(keep, q)
-				}
-			}
-			ops = append(ops, c28Op{Kind: "cleanup_direct", D: PickI(r, []int64{0, -c28Sec, 1, c28Sec, 10 * c28Sec, 1800 * c28Sec, 1801 * c28Sec, 3600 * c28Sec, -1 << 63, 1<<63 - 1}), Keep: keep})
-		case k < 72:
-			ops = append(ops, c28Op{Kind: "connect", Peer: p, Flag: r.Chance(65)})
-		case k < 85:
-			d := PickI(r, []int64{1, 9, 10, 11, 60, 300, 589, 590, 599, 600, 601, 890, 899, 900, 901, 1799, 1800, 1801, 3600, 86400})
-			if r.Chance(4) && big < 2 {
-				d = 200 * 365 * 86400
-				big++
-			}
-			ops = append(ops, c28Op{Kind: "advance", D: d})
-		case k < 88:
-			ops = append(ops, c28Op{Kind: "suspicious", Peer: p, Flag: r.Chance(60)})
-		case k < 90:
-			ops = append(ops, c28Op{Kind: "sendfail", Peer: p, Flag: r.Chance(60)})
-		case k < 91:
-			ops = append(ops, c28Op{Kind: "listfail", Flag: r.Chance(60)})
-		case k < 93:
-			ops = append(ops, c28Op{Kind: "reload"})
-		case k < 97:
-			id := p
-			if r.Chance(25) {
-				id = PickS(r, []string{"", strings.Repeat("k", 128), strings.Repeat("k", 129), "nobody"})
-			}
-			ops = append(ops, c28Op{Kind: "compat", Peer: id})
-		case k < 99:
-			ops = append(ops, c28Op{Kind: "putraw", Rec: genC28Rec(r, local)})
-		default:
-			ops = append(ops, c28Op{Kind: "remove", Peer: p})
+			ops = append(ops, o)
+		}
+	} else {
+		n := int(r.Range(5, 18))
+		for len(ops) < n {
+			ops = append(ops, genC28RandomOp(r, local, &big))
 		}
 	}
 	// every case ends with a reload so that persistence is always observed
@@ -442,18 +543,17 @@ func execC28(dir string, ops []c28Op) (time.Duration, error) {
 
 // ---------- rendering
 
-func (op *c28Op) now() int64 { return op.VSec*c28Sec + op.Idx*1000000 }
+// virtual clock reading of the operation in ns (two century advances exceed int64)
+func (op *c28Op) now() *big.Int {
+	n := new(big.Int).Mul(big.NewInt(op.VSec), big.NewInt(c28Sec))
+	return n.Add(n, big.NewInt(op.Idx*1000000))
+}
 
-func c28OptAge(has bool, d time.Duration) string {
+func c28OptAge(has bool, secs int64) string {
 	if !has {
 		return "None"
 	}
-	// floor to whole seconds (ages are never negative here, but keep floor semantics)
-	s := int64(d) / c28Sec
-	if int64(d) < 0 && int64(d)%c28Sec != 0 {
-		s--
-	}
-	return "(Some " + CoqZ(s) + ")"
+	return "(Some " + CoqZ(secs) + ")"
 }
 
 func c28SnapTerm(v uint64, assets []string, allowed bool, r [4]int64) string {
@@ -492,7 +592,7 @@ func c28OpTerm(op *c28Op) string {
 			if !has {
 				return "None"
 			}
-			return "(Some " + CoqZ(op.now()-int64(age)) + ")"
+			return "(Some " + CoqZbig(new(big.Int).Sub(op.now(), big.NewInt(int64(age)))) + ")"
 		}
 		return fmt.Sprintf("OPutRaw %s (Rec %s %s %s %s %s)", c28Str(r.Key), CoqStr(r.Address), CoqStr(r.Status),
 			st(r.HasLastPoll, r.LastPollAge), st(r.HasLastSeen, r.LastSeenAge),
@@ -511,10 +611,10 @@ func c28StepTerm(op *c28Op) string {
 	recs := make([]string, len(op.Store))
 	for i, r := range op.Store {
 		recs[i] = fmt.Sprintf("ORec %s %s %s %s %s %s %s", c28Str(r.Key), CoqBool(r.BadJSON), CoqStr(r.Address), CoqStr(r.Status),
-			c28OptAge(r.HasLastPoll, r.LastPollAge), c28OptAge(r.HasLastSeen, r.LastSeenAge),
+			c28OptAge(r.HasLastPoll, r.LastPollAgeSec), c28OptAge(r.HasLastSeen, r.LastSeenAgeSec),
 			c28SnapTerm(r.Version, r.Assets, r.PeerAllowed, [4]int64{r.BTCIn, r.BTCOut, r.LBTCIn, r.LBTCOut}))
 	}
-	return fmt.Sprintf("Step %s (%s) %s %s %s", CoqZ(op.now()), c28OpTerm(op), CoqList(sent), CoqZ(op.Result), CoqList(recs))
+	return fmt.Sprintf("Step %s (%s) %s %s %s", CoqZbig(op.now()), c28OpTerm(op), CoqList(sent), CoqZ(op.Result), CoqList(recs))
 }
 
 // classification of the branch an op took, from the observed data only (histogram)
